@@ -53,4 +53,9 @@ theorem commit_spec (c : Conn) :
   unfold Conn.commit
   cases h : c.inTx <;> simp [h]
 
+theorem rollback_spec (c : Conn) (hin : c.inTx = true) :
+    c.rollback.working = c.committed ∧ c.rollback.committed = c.committed ∧ c.rollback.inTx = false := by
+  unfold Conn.rollback
+  simp [hin]
+
 end AsyncFix.Model.Journal
